@@ -90,6 +90,17 @@ Theorem C15_owner_pause_unpause_edges :
 Proof. intros cfg s v v' a b Ha. split; [exact (pause_edge cfg s v v' a b Ha)|exact (unpause_edge cfg s v v' a b Ha)]. Qed.
 Print Assumptions C15_owner_pause_unpause_edges.
 
+(* Address rotation and genesis export + import keep every status (they are covered by
+   C15_only_allowed_edges_partial), but both LOSE the jail record: it is neither moved nor exported, so a
+   validator jailed inside the unjail window can no longer be released by an unjail proposal. *)
+Theorem C15_unjail_lost_by_genesis_import_and_rotation :
+  snd (step cfg0 s_jailed1 (OUnjail 1)) = ROk /\
+  snd (step cfg0 (fst (step cfg0 s_jailed1 OGenesis)) (OUnjail 1)) = RRej /\
+  snd (step cfg0 (fst (step cfg0 s_jailed1 (ORotate 1 5))) (OUnjail 5)) = RRej /\
+  status_at (fst (step cfg0 s_jailed1 (ORotate 1 5))) 5 = Some SJailed.
+Proof. exact unjail_lost_by_genesis_and_rotation. Qed.
+Print Assumptions C15_unjail_lost_by_genesis_import_and_rotation.
+
 (* Non-vacuity: hypotheses are met by the reachable states of Proofs/Validators.v *)
 Example C15_nonvacuous_state : Inv s_jailed1 /\ status_at s_jailed1 1 = Some SJailed /\ nonneg s_gen /\ cfg_ok cfg0.
 Proof. split; [exact s_jailed1_Inv|]. split; [vm_compute; reflexivity|exact s_gen_nonneg]. Qed.
